@@ -180,6 +180,10 @@ theorem sizeAfter_le (bmv : Bytes) (offset size1 : Int) (h0 : 0 ≤ offset) (h1 
   unfold sizeAfter Gen.bitSizeGrows Gen.bitSizeNew
   split <;> omega
 
+/-- the size `bitSetToNew` starts from when nothing is converted: the stored size of a live bitmap, 0 for an absent or
+    expired one (`bmSize = 0`, fix 0ad0963) -/
+def startSize (size0 : Int) (ok : Bool) : Int := if ok = true then size0 else 0
+
 /-- **SETBIT, no legacy conversion** (a live v2 bitmap, or no string stored under the name): the new store, what a reader
     decodes, the reply, the bits of the written generation, the frame -/
 theorem setbit_spec (pol : Pol) {m : List KV} (hs : Sorted m) (ts : Int) (table rk : Bytes) (offset : Nat) (on : Int)
@@ -189,24 +193,27 @@ theorem setbit_spec (pol : Pol) {m : List KV} (hs : Sorted m) (ts : Int) (table 
     ∃ (m' : List KV) (size2 : Int),
       setbit pol m ts table rk offset on =
         (m', .ok (if genBit m table (vkey pol rk (wHdr pol h ex ts).ver) offset then 1 else 0)) ∧
-      Sorted m' ∧ size0 ≤ size2 ∧
+      Sorted m' ∧ startSize size0 ok ≤ size2 ∧
+      size2 = sizeAfter ((get m (segK table (vkey pol rk (wHdr pol h ex ts).ver) (Gen.bitSetIndex offset))).getD []) offset (startSize size0 ok) ∧
       get m' (metaK table rk) = some (encodeMeta pol { wHdr pol h ex ts with user := some (metaUser size2 ts) }) ∧
       (∀ o : Nat, o < 9223372036854775808 → genBit m' table (vkey pol rk (wHdr pol h ex ts).ver) o =
         if o = offset then decide (on = 1) else genBit m table (vkey pol rk (wHdr pol h ex ts).ver) o) ∧
       (∀ x, x ≠ segK table (vkey pol rk (wHdr pol h ex ts).ver) (Gen.bitSetIndex offset) → x ≠ metaK table rk → get m' x = get m x) ∧
-      (WF m → WF m' ∧ size2 ≤ max size0 4294967296) := by
+      (WF m → WF m' ∧ size2 ≤ max (startSize size0 ok) 4294967296) := by
   generalize hH : wHdr pol h ex ts = H
   generalize hbk : segK table (vkey pol rk H.ver) (Gen.bitSetIndex offset) = bmk
-  have hconv : (if ok = true then Conv.done m size0 else convert m table rk size0) = Conv.done m size0 := by
-    rcases hnc with h1 | h1
-    · rw [if_pos h1]
-    · by_cases hok : ok = true
-      · rw [if_pos hok]
-      · rw [if_neg hok]; unfold convert; rw [h1]
+  have hconv : startOf m table rk size0 ok = (m, startSize size0 ok) := by
+    unfold startOf startSize
+    by_cases hok : ok = true
+    · rw [if_pos hok, if_pos hok]
+    · rw [if_neg hok, if_neg hok]
+      rcases hnc with h1 | h1
+      · exact absurd h1 hok
+      · unfold convert; rw [h1]
   have hne : bmk ≠ metaK table rk := by rw [← hbk]; exact segK_ne_metaK _ _ _ _ _
   refine ⟨put (put m bmk (segAfter ((get m bmk).getD []) offset on)) (metaK table rk)
-      (encodeMeta pol { H with user := some (metaUser (sizeAfter ((get m bmk).getD []) offset size0) ts) }),
-    sizeAfter ((get m bmk).getD []) offset size0, ?_, put_sorted (put_sorted hs _ _) _ _, sizeAfter_ge _ _ _, ?_, ?_, ?_, ?_⟩
+      (encodeMeta pol { H with user := some (metaUser (sizeAfter ((get m bmk).getD []) offset (startSize size0 ok)) ts) }),
+    sizeAfter ((get m bmk).getD []) offset (startSize size0 ok), ?_, put_sorted (put_sorted hs _ _) _ _, sizeAfter_ge _ _ _, rfl, ?_, ?_, ?_, ?_⟩
   · unfold setbit
     rw [if_neg (by rw [valueGuard on hv]; simp), if_neg (by rw [offsetGuard' offset (by omega) ho]; simp), hm]
     simp only
